@@ -6,10 +6,10 @@ pub fn n_cases(prop: &str, tier: &str) -> usize {
     let quick = tier == "quick";
     match prop {
         "C13" | "C18" => crate::props_set::n_cases(prop, tier),
-        "C09" => if quick { 240 } else { 5000 },
-        "C11" => if quick { 300 } else { 10_000 },
-        "C14" => if quick { 300 } else { 10_000 },
-        "C04" => if quick { 96 } else { 6000 },
+        "C09" => if quick { 720 } else { 5000 },
+        "C11" => if quick { 900 } else { 10_000 },
+        "C14" => if quick { 600 } else { 10_000 },
+        "C04" => if quick { 192 } else { 6000 },
         "C05" => if quick { 156 } else { 8008 },
         "C07" | "C08" => crate::props_bin::n_cases(prop, tier),
         "C06" | "C17" => crate::props_stat::n_cases(prop, tier),
